@@ -154,16 +154,19 @@ def run_standin(job):
         st = [s for s in api.STANDINS if "standin:" + s.name == name and s.fn.__module__ == modname][0]
         fixed = dict([i for i in st.instances() if i[0] == label][0][1])
         n = 0
+        sample_cases = []
         for case in st.cases(tier, **fixed):
             n += 1
             case = tuple(case) if isinstance(case, (tuple, list)) else (case,)
+            if n in (1, 2, 1000, 100000) or (n < 2000 and n % 577 == 0):
+                sample_cases.append(_safe_repr(case)[:300])
             try:
                 st.fn(*case)
             except BaseException as e:  # noqa: BLE001
                 nat = ("assert" if isinstance(e, AssertionError) else "raise", f"{type(e).__name__}: {e}")
                 res["vcs"].append({"kind": "stand-in", "site": st.name, "status": "refuted", "solver_s": 0.0, "detail": f"{st.kind}: native evaluation failed", "args": {"case": _safe_repr(case)}, "native": nat, "decisions": "", "_pickle": _pickle_args({"__case__": case})})
                 break
-        res["standin"] = {"name": st.name, "instance": label, "kind": st.kind, "cases": n, "bound": st.bound, "exhaustive": bool(st.exhaustive), "failed": bool(res["vcs"])}
+        res["standin"] = {"name": st.name, "instance": label, "kind": st.kind, "cases": n, "bound": st.bound, "exhaustive": bool(st.exhaustive), "failed": bool(res["vcs"]), "samples": sample_cases[:6]}
     except Exception as e:  # noqa: BLE001
         res["error"] = f"CRASH {type(e).__name__}: {e}"
     res["wall_s"] = round(time.time() - t0, 3)
@@ -559,7 +562,7 @@ def summarize(prop, tier, results, wall, findings, mutations, quiet=False):
         code = 3
         for r, m in mism[:10]:
             lines.append(f"ENGINE-MISMATCH {r['lemma']}[{r['instance']}]: {json.dumps(m)[:600]}")
-    if n_total == 0 and code == 0:
+    if n_total == 0 and code == 0 and not (standins and all(s["cases"] > 0 for s in standins)):
         code = 3
         lines.append("ERROR zero obligations generated")
     # non-vacuity: every lemma instance must have at least one path that returns normally
@@ -669,9 +672,19 @@ def _slug(s):
 def write_evidence(prop, evidence):
     os.makedirs(os.path.join(VERIF, "evidence"), exist_ok=True)
     p = os.path.join(VERIF, "evidence", f"{prop}.json")
-    if evidence["coverage"]["obligations"] == 0 or evidence["coverage"]["discharged"] == 0:
+    cov = evidence["coverage"]
+    if cov["obligations"] == 0 and cov.get("stand_ins") and cov.get("exit_code") in (0, 1):
+        # a property decided only by labelled stand-ins: bounded native enumeration, not a proof
+        evidence["level"] = "exploration"
+        n = sum(s["cases"] for s in cov["stand_ins"])
+        cov["evaluations"] = n
+        cov["distinct_nontrivial"] = n
+        cov["rule"] = "cases are enumerated without repetition by the stand-in's generator (" + "; ".join(s["bound"] for s in cov["stand_ins"]) + "); every case drives the real code and is compared with the reference"
+        cov["samples"] = [x for s in cov["stand_ins"] for x in s.get("samples", [])][:8] or ["(no sample recorded)"]
+        cov["exhaustive"] = all(s["exhaustive"] for s in cov["stand_ins"])
+    elif cov["obligations"] == 0 or cov["discharged"] == 0:
         evidence["level"] = "other"
-        evidence["coverage"]["explanation"] = "checker error, nothing was decided on this run: " + "; ".join(evidence["coverage"].get("messages", [])[:3])
+        cov["explanation"] = "checker error, nothing was decided on this run: " + "; ".join(cov.get("messages", [])[:3])
     with open(p, "w") as fh:
         json.dump(evidence, fh, indent=1, default=str)
     try:
